@@ -128,6 +128,7 @@ PROPS = {
         "scenarios": [
             {"name": "group", "quick": 120000, "thorough": 4000000, "thorough_time": 200},
             {"name": "group-traits", "quick": 20000, "thorough": 1000000, "thorough_time": 120},
+            {"name": "group-unary", "quick": 10000, "thorough": 300000, "thorough_time": 40},
             {"name": "group-large", "quick": 4000, "thorough": 200000, "thorough_time": 60},
         ],
         "case_space": 2246,
